@@ -10,6 +10,7 @@ import TexelVerif.Drv.Csp
 import TexelVerif.Drv.Pos
 import TexelVerif.Drv.TB
 import TexelVerif.Drv.Draw
+import TexelVerif.Drv.Rev
 /-! Line-protocol driver: one operation per stdin line, one canonical reply line.
     Imports model files only (no proofs, no Mathlib), so it links as a `lean_exe`. -/
 
@@ -37,6 +38,7 @@ def dispatch (st : DrvState) (line : String) : DrvState × String :=
   | "pos" :: args => let (p, o) := Drv.Pos.step st.pos args; ({ st with pos := p }, o)
   | "tb" :: args => (st, Drv.TB.step args)
   | "draw" :: args => (st, Drv.Draw.step args)
+  | "rev" :: args => (st, Drv.Rev.step args)
   | _ => (st, "bad-op")
 
 partial def loop (h : IO.FS.Stream) (out : IO.FS.Stream) (st : DrvState) : IO Unit := do
